@@ -10,7 +10,7 @@ func init() {
 			"(c) split routes pass a neutral per-leg limit, sum their legs and compare the sum; (d) the amount charged by the taker-fee step depends only on quantities the estimate also has (bypass agreement).",
 		NotCovered:  []string{"'exactly the result of performing the hops one after another' as a value statement across pool types", "estimates leave state untouched for cosmwasm pools", "routes visiting a pool twice"},
 		Assumptions: []string{"pool modules implement PoolModuleI as specified (checked for gamm and concentrated-liquidity entries here)", "SDK transaction atomicity"},
-		MinObl:      61,
+		MinObl:      64,
 		Run:         runC05,
 	})
 }
@@ -71,6 +71,7 @@ func runC05(c *rules.Ctx) {
 	c.CallArg(CM, "poolmanager.CalcTakerFeeExactOut", 1, "poolmanager.Keeper.GetTradingPairTakerFee(...)#0", "the exact-out fee formula is used with the pair's fee")
 	c.CallArg(CM, "poolmanager.CalcTakerFeeExactOut", 0, "poolmanagertypes.PoolModuleI.CalcInAmtGivenOut(...)#0", "on the pool's required input")
 	c.NoCall(CM, "poolmanager.CalcTakerFeeExactIn", "the exact-out estimator never uses the exact-in fee formula")
+	c.CallArg(CM, "poolmanagertypes.PoolModuleI.CalcInAmtGivenOut", 3, "phi(tokenOut, poolmanager.CalcTakerFeeExactOut(_,_)#0)", "backward chaining: the previous hop must deliver this hop's input *including* its taker fee (the after-fee amount is what gets chained)")
 	c.CallArg(RO, "poolmanager.Keeper.chargeTakerFee", 5, "false", "execution charges the exact-out direction")
 	c.CallArg(RO, "poolmanager.Keeper.chargeTakerFee", 2, "sdk.NewCoin(elem(route).TokenInDenom, poolmanagertypes.PoolModuleI.SwapExactAmountOut(...)#0)", "on the amount the pool actually required")
 	c.CallArg(RO, "poolmanagertypes.PoolModuleI.SwapExactAmountOut", 4, "elem(route).TokenInDenom", "each hop pays in the step's in denom")
@@ -102,6 +103,8 @@ func runC05(c *rules.Ctx) {
 	// ---- taker fee step --------------------------------------------------------------------------------------------------------
 	const CH = K + "chargeTakerFee"
 	c.Let("FEE", "poolmanager.Keeper.GetTradingPairTakerFee(k,ctx,tokenIn.Denom,tokenOutDenom)#0")
+	c.HasCall(CH, "osmoutils.Contains", []string{"_", "sdk.AccAddress.String(sender)"}, true, "the reduced-fee whitelist is consulted for every charge, whatever the swap direction", "whitelist")
+	c.OnlyWhenReturn(CH, "tokenIn", "osmoutils.Contains(_, sdk.AccAddress.String(sender))", "the fee is waived only for a whitelisted sender")
 	c.OnlyWhen(CH, "poolmanager.CalcTakerFeeExactIn", "exactIn", "the exact-in formula is used for exact-in swaps")
 	c.OnlyWhen(CH, "poolmanager.CalcTakerFeeExactOut", "not(exactIn)", "the exact-out formula is used for exact-out swaps")
 	c.CallArg(CH, "poolmanagertypes.BankI.SendCoinsFromAccountToModule", 4, "sdk.NewCoins(phi(poolmanager.CalcTakerFeeExactIn(tokenIn,{FEE})#1, poolmanager.CalcTakerFeeExactOut(tokenIn,{FEE})#1))", "exactly the computed fee is moved to the collector")
